@@ -40,8 +40,8 @@ def run {μ : Type} (step : Bytes → Step) (decode : Bytes → PyM (Option μ))
     | .frame n pdu uid tid pid =>
       if validUnit units single uid then
         match decode pdu with
-        | .error e => ([.raised e], buf)
-        | .ok none => ([.raised .modbusIO], buf)
+        | .error e => ([.raised e], buf.drop n)          -- the frame is discarded, the exception escapes
+        | .ok none => ([.raised .modbusIO], buf.drop n)
         | .ok (some m) =>
           let r := run step decode units single fuel (buf.drop n)
           (.deliver m uid tid pid :: r.1, r.2)
@@ -249,8 +249,8 @@ def tlsFeed {μ : Type} (decode : Bytes → PyM (Option μ)) (units : List Nat) 
     ([.raised .key], b)       -- `self._header['uid']` on the empty header dict
   else if validUnit units single 0 then
     match decode b with
-    | .error e => ([.raised e], b)
-    | .ok none => ([.raised .modbusIO], b)
+    | .error e => ([.raised e], [])
+    | .ok none => ([.raised .modbusIO], [])
     | .ok (some m) => ([.deliver m 0 0 0], [])
   else ([], [])
 
